@@ -1323,10 +1323,16 @@ fn law_itp(v: &[f64]) -> Option<(String, String)> {
 /// s (x - a)^3 with inexact coefficients: a triple root is not "separated", so any count 1..3 is accepted, but
 /// every returned value must be finite and within the cube-root sensitivity (eps^(1/3) ~ 6e-6) of a
 fn g_triple(r: &mut Rng) -> Vec<f64> {
-    let a = match r.below(3) {
+    let a = match r.below(4) {
         0 => r.range_i(-99, 99) as f64 / 10.0,
         1 => r.uniform(-10.0, 10.0),
-        _ => r.generic(-6, 6),
+        2 => r.generic(-6, 6),
+        // a triple root of very small magnitude: 4*d0*d2 - d1*d1 underflows to exactly 0.0 while the rounded d0
+        // stays positive, so the `d == 0` branch is entered with the clamp on d0 active (seed C14g)
+        _ => {
+            let m = r.uniform(1.0, 10.0) * if r.bool() { -1.0 } else { 1.0 };
+            m * 10f64.powi(-(r.range_i(20, 95) as i32))
+        }
     };
     vec![a, law_scale(r)]
 }
